@@ -131,8 +131,12 @@ def format_paths(t, dump, prog, mode, sym=True):
         for a in asm:
             c.assume(a)
         install_parse_stubs(M, snap, dump.get('syntax_errors'))
+        ost = {}
+        if mode in ('c10', 'c09'):
+            # the formatter is a function of its input: the iteration order of any Go map it ranges over is a choice of the path
+            M.map_order_hook = checks_b.permuting_order_hook(c, ost)
         r = M.call(PARSER + '.FormatPacketDsl', [go_str(t.text)])
-        return (to_pystr(r[0]) if isinstance(r[0], str) else r[0], r[1])
+        return (to_pystr(r[0]) if isinstance(r[0], str) else r[0], r[1], bool(ost.get('deviated')))
     ctl, paths = explore([], fmt, 128)
     return paths, holder.get('info')
 
@@ -154,7 +158,7 @@ def c09_text(t, dump, tier):
         stats['paths'] += 1
         if kind != 'ok':
             continue                       # crashes are C11's
-        out, err = val
+        out, err = val[0], val[1]
         if dump.get('syntax_errors'):
             # error path: the input is returned unchanged together with an error
             if err is None:
@@ -203,8 +207,21 @@ def c09_text(t, dump, tier):
                 k += 1
             missing = want[k] if k < len(want) else None
             kindname = [n for n, v in consts.items() if missing and v == missing[0]]
-            res.append(BFinding('C09', 'format', t.tag, 'token-lost:%s' % (kindname[0] if kindname else 'EOF'),
-                                'token sequence changes at position %d: input has %r, output has %r' % (k, missing, got[k] if k < len(got) else None),
+            # the identity of the finding is the exact multiset of tokens that disappear (and appear): another comment or another
+            # declaration lost from the same text is another finding
+            cw, cg = collections.Counter(want), collections.Counter(got)
+            lost = sorted((cw - cg).elements())
+            gained = sorted((cg - cw).elements())
+            kn = lambda ty: ([n for n, v in consts.items() if v == ty and n.isupper()] or ['T%s' % ty])[0]
+            ident = hashlib.sha1(repr((lost, gained)).encode()).hexdigest()[:8]
+            what = 'token-lost:%s' % (kindname[0] if kindname else 'EOF')
+            if lost or gained:
+                what = 'tokens:-%d+%d:%s:%s' % (len(lost), len(gained), '+'.join(sorted(set(kn(x[0]) for x in lost + gained)))[:60], ident)
+            else:
+                what = 'tokens-reordered:%s:%s' % (kindname[0] if kindname else 'EOF', hashlib.sha1(repr(got).encode()).hexdigest()[:8])
+            res.append(BFinding('C09', 'format', t.tag, what,
+                                'token sequence changes at position %d: input has %r, output has %r; lost %s; new %s' % (
+                                    k, missing, got[k] if k < len(got) else None, [x[1] for x in lost][:8], [x[1] for x in gained][:8]),
                                 {'text': t.text, 'formatted': o}))
             continue
         if not base.get('panic') and not base.get('model_errors') and base.get('model_digest'):
@@ -272,8 +289,12 @@ def c10_text(t, dump, tier):
             lay = layout_text(t.text, info, mdl) if mdl is not None else None
             mdl0 = model_of(first[1])
             lay0 = layout_text(t.text, info, mdl0) if mdl0 is not None else None
-            res.append(BFinding('C10', 'format', t.tag, 'layout-dependent', 'two layouts of the same tokens (comments kept on the line of the same token) format differently',
-                                {'text': t.text, 'relayout': lay, 'relayout_base': lay0, 'a': first[0][:300], 'b': out[:300]}))
+            if len(val) > 2 and val[2]:
+                res.append(BFinding('C10', 'format', t.tag, 'map-order-dependent', 'the formatted text depends on the iteration order of a Go map: the same input formats to different texts from run to run',
+                                    {'text': t.text, 'a': first[0][:300], 'b': out[:300]}))
+            else:
+                res.append(BFinding('C10', 'format', t.tag, 'layout-dependent', 'two layouts of the same tokens (comments kept on the line of the same token) format differently',
+                                    {'text': t.text, 'relayout': lay, 'relayout_base': lay0, 'a': first[0][:300], 'b': out[:300]}))
         if out not in outs:
             outs.append(out)
     if not outs:
